@@ -590,6 +590,15 @@ func (ck *checker) ojWriters(tree any, gtree gen.Node, o *ojg.Options, cs map[st
 		if w.writes > 1 {
 			c.Cover("flushes>1")
 		}
+		if li%2 != 0 && deterministic {
+			// the same Writer instance right after streaming: the in-memory text must be complete
+			w2 := &oj.Writer{Options: o2}
+			var sink countW
+			_ = w2.Write(&sink, gtree)
+			if again := w2.JSON(tree); again != j {
+				c.Violation("oj.Writer.JSON(after Write)", "differs-from-oj.JSON", optClass(o), with(cs, "write_limit", wl), clip(j), clip(again))
+			}
+		}
 		c.Eval(1)
 		c.Cover("writer:" + entry)
 		if deterministic {
